@@ -270,6 +270,9 @@ def merge_single_qubit_gates_to_phxz_symbolized(
 
     Returns:
         Copy of the transformed input circuit.
+
+    Raises:
+        ValueError: If a symbol is used by single-qubit gates and by other operations.
     """
     deep = context.deep if context else False
 
@@ -297,6 +300,16 @@ def merge_single_qubit_gates_to_phxz_symbolized(
     remaining_symbols: set[sympy.Symbol] = set(
         protocols.parameter_symbols(circuit) - single_qubit_gate_symbols
     )
+    # The single qubit gate symbols get resolved below, which would also bind them in other
+    # operations: for every sweep point but the first the other operations would be wrong.
+    for op in circuit_tagged.all_operations():
+        if symbolized_single_tag not in op.tags:
+            shared_symbols = single_qubit_gate_symbols & protocols.parameter_symbols(op)
+            if shared_symbols:
+                raise ValueError(
+                    f"Symbols {sorted(str(s) for s in shared_symbols)} are used by single-qubit "
+                    f"gates and by {op}, which is not supported."
+                )
     # If all single qubit gates are not parameterized, call the non-parameterized version of
     # the transformer.
     if not single_qubit_gate_symbols:
